@@ -218,7 +218,9 @@ impl<T: Qcow2IoOps> Qcow2Dev<T> {
                 let cls = HostCluster(host_cluster);
                 let slice_idx = cls.rb_slice_index(info);
 
-                refblock.decrement(slice_idx).unwrap();
+                // a refcount that is already zero means corrupted metadata
+                // (or a double free): report it instead of panicking
+                refblock.decrement(slice_idx)?;
                 if first_zero && refblock.get(slice_idx).is_zero() {
                     self.free_cluster_offset
                         .fetch_min(host_cluster, Ordering::Relaxed);
